@@ -137,6 +137,18 @@ theorem capInv_step {c c' : Cap} {a : Act} (h : CapInv c) (hs : step c a = some 
       have hpos : 0 < c.inAccept.length := List.length_pos_of_mem hg.1
       rw [this]; omega
     · exact List.nodup_cons.mpr ⟨hg.2, h.nodup⟩
+  case acceptFail id =>
+    split at hs
+    · rename_i hmem
+      split at hs <;> cases hs
+      apply semRelease_inv
+      refine ⟨h.size, ?_, ?_, h.book, h.unit1, h.nodup⟩
+      · simp only [List.length_erase_of_mem hmem]
+        have := h.count
+        have hpos : 0 < c.inAccept.length := List.length_pos_of_mem hmem
+        rw [this]; omega
+      · have := h.le; show c.cur - 1 ≤ M; omega
+    · cases hs
   case connClose id =>
     split at hs
     · rename_i hmem
